@@ -335,6 +335,12 @@ func gen(t *rapid.T) Case {
 	c := Case{Runs: 2}
 	c.Readers = rapid.SampledFrom([]int{1, 1, 2, 2, 2, 3}).Draw(t, "readers")
 	c.Wrap = rapid.IntRange(0, 9).Draw(t, "refusing_wrapper") < 4
+	// auto-instrumentation attached (flag on from the start), detached again
+	// before phase AutoOff (9 = stays attached)
+	c.AutoOn = rapid.IntRange(0, 9).Draw(t, "auto_instrumentation") < 4
+	if c.AutoOn {
+		c.AutoOff = rapid.SampledFrom([]int{1, 1, 2, 3, 9, 9}).Draw(t, "auto_off_before_phase")
+	}
 	b.readers = c.Readers
 	storm := rapid.IntRange(0, 9).Draw(t, "storm") < 5
 	var stormCBs []int
@@ -346,6 +352,14 @@ func gen(t *rapid.T) Case {
 		var merged vset
 		for g := 0; g < ng; g++ {
 			ops := b.goroutine(0, g, rapid.IntRange(0, 16).Draw(t, "pre_ops"), wPre)
+			if g == 0 && c.AutoOn {
+				// spans through placeholder tracers while the agent is attached
+				top := b.mk("tracer")
+				ops = append(ops, top)
+				for i, n := 0, rapid.IntRange(1, 3).Draw(t, "auto_spans"); i < n; i++ {
+					ops = append(ops, b.mk("span"))
+				}
+			}
 			if g == 0 && storm {
 				// one meter with many instruments (a long meter.setDelegate) and
 				// many registered callbacks
